@@ -342,3 +342,34 @@ pub fn counted_index_tied(prefix: &mut Vec<u32>, rest: u32, wanted: usize) -> u3
     }
     acc
 }
+
+// ---- memo of a host query (C09.15): the key must carry every argument of the query, unconditionally
+pub trait Host {
+    fn resolve(&mut self, from: &str, spec: &str) -> Option<String>;
+}
+pub struct Memo<R: Host> {
+    pub host: R,
+    pub answers: std::collections::BTreeMap<(Option<String>, String), Option<String>>,
+    pub full: std::collections::BTreeMap<(String, String), Option<String>>,
+}
+impl<R: Host> Memo<R> {
+    pub fn memo_conditional_key(&mut self, from: &str, spec: &str) -> Option<String> {
+        let importer = spec.starts_with("./").then(|| from.to_string());
+        let key = (importer, spec.to_string());
+        if let Some(known) = self.answers.get(&key) {
+            return known.clone();
+        }
+        let resolved = self.host.resolve(from, spec);
+        self.answers.insert(key, resolved.clone());
+        resolved
+    }
+    pub fn memo_full_key(&mut self, from: &str, spec: &str) -> Option<String> {
+        let key = (from.to_string(), spec.to_string());
+        if let Some(known) = self.full.get(&key) {
+            return known.clone();
+        }
+        let resolved = self.host.resolve(from, spec);
+        self.full.insert(key, resolved.clone());
+        resolved
+    }
+}
